@@ -10,6 +10,9 @@ const WhopLocSymbol = Symbol("whopper-location")
 type WhopLoc struct {
 	Method  *Method
 	Current int
+	// Args are the arguments the current method was called with. They are
+	// passed on by a call-next-method without arguments.
+	Args List
 }
 
 // String representation of the Object.
@@ -49,7 +52,7 @@ func (wl *WhopLoc) Continue(s *Scope, args List, depth int) Object {
 			continue
 		}
 		ws := s.NewScope()
-		ws.Let("~whopper-location~", &WhopLoc{Method: wl.Method, Current: wl.Current + 1})
+		ws.Let("~whopper-location~", &WhopLoc{Method: wl.Method, Current: wl.Current + 1, Args: args})
 		if lam, ok := wrap.(*Lambda); ok {
 			lam.Closure = ws
 		}
